@@ -32,10 +32,10 @@ Factors == {"cont", "lit", "br", "via", "perm", "alias"}
 RouteDiff(r1, r2) == {f \in Factors : r1[f] # r2[f]}
 HiddenDiff(h1, h2) == {f \in {"num", "index", "branch"} : h1[f] # h2[f]}
 
-Judge(obs) ==
+Judge(obs, variant) ==
    LET n == Len(obs)
        C == TLCEval([i \in 1..n |-> Canon(ContentOf(obs[i].s))])
-       H == TLCEval([i \in 1..n |-> ImplHidden(ContentOf(obs[i].s), obs[i].s.route)])
+       H == TLCEval([i \in 1..n |-> ImplHiddenOf(variant, ContentOf(obs[i].s), obs[i].s.route)])
        \* the same points in another stored order: the property text does not say whether the order
        \* of the points is content, so such pairs are not judged either way
        CB == TLCEval([i \in 1..n |-> CanonUnordered(ContentOf(obs[i].s))])
@@ -67,7 +67,7 @@ Judge(obs) ==
        readbad == {i \in has : obs[i].after # obs[i].id}
        procbad == {i \in has : \E k \in DOMAIN obs[i].others : obs[i].others[k] # obs[i].id}
        \* the descriptive model says an identifier exists iff ImplHasId
-       driftNoId == {i \in 1..n : obs[i].ok # ImplHasId(ContentOf(obs[i].s), obs[i].s.route)}
+       driftNoId == {i \in 1..n : obs[i].ok # ImplHasIdOf(variant, ContentOf(obs[i].s), obs[i].s.route)}
    IN [objects |-> n, pairs |-> npairs, bad_pairs |-> Cardinality(bad),
        classes |-> SetToSeq({[class |-> c, count |-> Cardinality({p \in bad : classOf(p) = c}), example |-> example(c)] : c \in classes}),
        no_identifier |-> SetToSeq({[s |-> obs[i].s, error |-> obs[i].id, hidden |-> H[i]] : i \in noid}),
@@ -91,7 +91,7 @@ FitJudge(obs) ==
 
 Step(q) ==
   CASE q.k = "scenarios" -> [table |-> Table]
-    [] q.k = "judge" -> Judge(q.obs)
+    [] q.k = "judge" -> Judge(q.obs, q.impl)
     [] q.k = "fit" -> FitJudge(q.obs)
 
 ASSUME JsonSerialize(IOEnv.X_OUT, [i \in 1..Len(Q) |-> Step(Q[i])])
